@@ -38,7 +38,7 @@ fn ops_subs() -> Ops {
 }
 
 fn wp(name: &str, specs: Vec<Spec>, observable: Vec<usize>, pinned: Vec<usize>, max_obs: usize, len: usize, ops: Ops, mon: Monitors) -> Box<dyn Scenario> {
-    Box::new(WorldScn(WorldCfg { name: name.to_string(), specs, late_specs: vec![], observable, pinned, max_obs, max_subs: 2, observe_at_start: vec![], cut_nodes: vec![], len, ops, mon }))
+    Box::new(WorldScn(WorldCfg { name: name.to_string(), specs, late_specs: vec![], observable, pinned, max_obs, max_subs: 2, observe_at_start: vec![], cut_nodes: vec![], cut_kinds: vec![], cut_eq: false, len, ops, mon }))
 }
 
 /// binds whose closures build nodes over outer nodes; the bind itself stays observed
@@ -73,7 +73,7 @@ pub fn bind_templates(prefix: &str, l: usize, ops: Ops, mon: Monitors) -> Vec<Bo
 }
 
 fn w(name: &str, specs: Vec<Spec>, observable: Vec<usize>, max_obs: usize, len: usize, ops: Ops, mon: Monitors) -> Box<dyn Scenario> {
-    Box::new(WorldScn(WorldCfg { name: name.to_string(), specs, late_specs: vec![], observable, pinned: vec![], max_obs, max_subs: 2, observe_at_start: vec![], cut_nodes: vec![], len, ops, mon }))
+    Box::new(WorldScn(WorldCfg { name: name.to_string(), specs, late_specs: vec![], observable, pinned: vec![], max_obs, max_subs: 2, observe_at_start: vec![], cut_nodes: vec![], cut_kinds: vec![], cut_eq: false, len, ops, mon }))
 }
 
 /// The graph templates shared by the value-carrying properties. `l` = history length.
@@ -151,6 +151,8 @@ pub fn scenarios(prop: &str, tier: Tier) -> Vec<Box<dyn Scenario>> {
                 max_subs: 1,
                 observe_at_start: vec![],
                 cut_nodes: vec![],
+                cut_kinds: vec![],
+                cut_eq: false,
                 len: l,
                 ops: ops.clone(),
                 mon,
@@ -163,7 +165,7 @@ pub fn scenarios(prop: &str, tier: Tier) -> Vec<Box<dyn Scenario>> {
             let mon = Monitors { c06: true, ..Monitors::default() };
             let ops = Ops { write: true, write_same: true, observe: true, drop_obs: true, ..Ops::default() };
             let c = |name: &str, specs: Vec<Spec>, start: Vec<usize>, cut: Vec<usize>, observable: Vec<usize>, len: usize| -> Box<dyn Scenario> {
-                Box::new(WorldScn(WorldCfg { name: format!("C06/{name}"), specs, late_specs: vec![], observable, pinned: vec![], max_obs: 1, max_subs: 0, observe_at_start: start, cut_nodes: cut, len, ops: ops.clone(), mon: mon.clone() }))
+                Box::new(WorldScn(WorldCfg { name: format!("C06/{name}"), specs, late_specs: vec![], observable, pinned: vec![], max_obs: 1, max_subs: 0, observe_at_start: start, cut_nodes: cut, cut_kinds: vec![], cut_eq: false, len, ops: ops.clone(), mon: mon.clone() }))
             };
             vec![
                 c("chain", vec![Var, Map(0), Map(1), Map(2)], vec![3], vec![0, 1, 2], vec![1], l),
@@ -178,7 +180,7 @@ pub fn scenarios(prop: &str, tier: Tier) -> Vec<Box<dyn Scenario>> {
             use Spec::*;
             let mon = Monitors { c08: true, c01: true, c02: true, ..Monitors::default() };
             let c = |name: &str, specs: Vec<Spec>, observable: Vec<usize>, ops: Ops, len: usize| -> Box<dyn Scenario> {
-                Box::new(WorldScn(WorldCfg { name: format!("C08/{name}"), specs, late_specs: vec![], observable, pinned: vec![], max_obs: 2, max_subs: 1, observe_at_start: vec![], cut_nodes: vec![], len, ops, mon: mon.clone() }))
+                Box::new(WorldScn(WorldCfg { name: format!("C08/{name}"), specs, late_specs: vec![], observable, pinned: vec![], max_obs: 2, max_subs: 1, observe_at_start: vec![], cut_nodes: vec![], cut_kinds: vec![], cut_eq: false, len, ops, mon: mon.clone() }))
             };
             let l = if q { 5 } else { 7 };
             vec![
@@ -200,6 +202,23 @@ pub fn scenarios(prop: &str, tier: Tier) -> Vec<Box<dyn Scenario>> {
                     Ops { write_kinds: true, wkinds_outside: vec![WKind::Set], arm_nodes: vec![1], arm_vars: vec![0, 2], arm_handlers: true, observe: true, subscribe: true, drop_var: true, ..Ops::default() },
                     l,
                 ),
+            ]
+        }
+        "C13" => {
+            use Spec::*;
+            let mon = Monitors { c13: true, ..Monitors::default() };
+            let l = if q { 6 } else { 8 };
+            let f = |k: NodeKeyKind, i: usize| (CrashAt::Fn(k, i), 0u32);
+            let c = |name: &str, specs: Vec<Spec>, observable: Vec<usize>, cut: Vec<usize>, crash: Vec<(CrashAt, u32)>, len: usize| -> Box<dyn Scenario> {
+                let ops = Ops { write: true, observe: true, drop_obs: true, subscribe: true, crash_points: crash, ..Ops::default() };
+                Box::new(WorldScn(WorldCfg { name: format!("C13/{name}"), specs, late_specs: vec![], observable, pinned: vec![], max_obs: 2, max_subs: 1, observe_at_start: vec![], cut_nodes: cut, cut_kinds: vec![CutKind::Fn, CutKind::Boxed], cut_eq: true, len, ops, mon: mon.clone() }))
+            };
+            use NodeKeyKind as K;
+            vec![
+                c("diamond", vec![Var, Map(0), Map(0), Map2(1, 2)], vec![3, 1], vec![1], vec![f(K::Main, 1), f(K::Main, 2), f(K::Main, 3), f(K::Cutoff, 1), (CrashAt::Handler(0), 0), (CrashAt::Handler(1), 0)], l),
+                c("bind_fresh", vec![Var, Var, Map(1), Bind { lhs: 0, then: Rhs::FreshMap(2), els: Rhs::Node(2) }], vec![3, 2], vec![], vec![f(K::BindFn, 3), f(K::Rhs, 3), f(K::Main, 2), (CrashAt::Handler(0), 0)], l),
+                c("fold_dup", vec![Var, Var, Fold(vec![0, 1, 0])], vec![2, 0], vec![], vec![f(K::Main, 2), (CrashAt::Fn(K::Main, 2), 1), (CrashAt::Handler(0), 0)], l),
+                c("mapref_chain", vec![PVar, Fst(0), Map(1), PMap(0)], vec![2, 3], vec![], vec![f(K::Main, 2), f(K::Main, 3), (CrashAt::Handler(0), 0)], l),
             ]
         }
         "C09" => graph_templates("C09", if q { 6 } else { 7 }, ops_subs(), Monitors { c09: true, ..Monitors::default() }),
@@ -325,6 +344,23 @@ pub fn meta(prop: &str, tier: Tier) -> PropMeta {
             assumptions: common_assume,
             rule: "as C01",
             must_cover: vec!["write-from-node-function", "write-from-update-handler", "var-handle-dropped-with-write-armed", "deferred-write-on-var-whose-last-handle-was-dropped"],
+        },
+        "C13" => PropMeta {
+            level: "other",
+            functions: {
+                let mut e = engine;
+                e.push("incremental::State::{stabilise_debug (status assertion), stabilise_end, destroy}, InternalObserver::try_get_value (status check), Drop for State/Observer/Var");
+                e
+            },
+            bounds: format!("4 templates; histories of {} actions from {{write, observe, drop observer, subscribe, arm a panic at a chosen user function (node function, fold function 1st/2nd call, bind closure, node built inside a bind, fn/boxed cutoff function, update handler), stabilise}}; the panic fires at the next invocation of that function, is caught by the caller of stabilise; afterwards every observer is read, a further stabilise is attempted, and all handles and the state are dropped under catch_unwind, under both build profiles", l(6, 8)),
+            outside: {
+                let mut o = common_outside;
+                o.push("a second panic during unwinding aborts the process: the check then dies with a signal and is reported as a tool error, not silently passed");
+                o
+            },
+            assumptions: common_assume,
+            rule: "as C01",
+            must_cover: vec!["panic-in-node-function", "panic-in-bind-closure", "panic-in-scope-created-node", "panic-in-cutoff-function", "panic-in-update-handler"],
         },
         "C09" => PropMeta {
             level: "other",
